@@ -21,7 +21,7 @@
 From Coq Require Import List Arith Bool Lia ZArith.
 From LMBase Require Import Res ListX IEEE.
 From LMScore Require Import ScoreModel SimdModel GenAvx2 GenLane4 GenScores ScoresModel ScoreCheck
-     ScoreProofs SimdProofs Sse2Proofs F32Proofs ScoresProofs ReadmeExample.
+     ScoreProofs SimdProofs Sse2Proofs F32Proofs ScoresProofs ScorePadModel ScorePad ScoresProofsWf ReadmeExample.
 Import ListNotations.
 
 (* resize, empty / Default, is_empty, offset, Index<usize>, Iter::new / get, unstripe as
@@ -127,6 +127,52 @@ Proof.
   - unfold score_def. apply fold_add_not_nzero. exact f32_zero_not_nzero.
   - apply score_def_zero_cells.
 Qed.
+
+(* ---------- round 3, wave 3: the same under the weakest hypothesis on the sequences ----------
+
+   [call_wf C c]: the sequence matrix of the call is well formed (rows of C symbols < K) and has at least
+   M - 1 look-ahead rows, M >= 1, K cells per scoring-matrix row, AVX2 / dispatcher only for C = 32 -- NO
+   [Striped]: the sequences may come from StripedSequence::new / ::sample (any padding, any number of rows).
+   [hop_wf]: the scoring calls of a history are such calls.  [hop_ok] implies [hop_wf], so the theorems
+   above are instances. *)
+Theorem C01_hop_ok_implies_wf :
+  forall (C : nat) (op : hop), hop_ok C op -> hop_wf C op.
+Proof. exact hop_ok_wf. Qed.
+
+Theorem C01_scores_history_wf :
+  forall (C : nat) (h : list hop) (old : sscores f32) (last : hop) (mid : sscores f32),
+    0 < C -> C mod 16 = 0 ->
+    sc_wf C old -> Forall (hop_wf C) h -> is_scoring last -> hop_wf C last ->
+    f_hrun C h old = Ok mid ->
+    sc_wf C mid /\ res_equiv (f_hstep C last mid) (ref_call C last).
+Proof. intros C h old last mid HC HC16. apply scores_history_wf; auto. Qed.
+
+Theorem C01_scores_history_last_call_only_wf :
+  forall (C : nat) (h1 h2 : list hop) (old1 old2 : sscores f32) (last : hop) (r1 r2 : sscores f32),
+    0 < C -> C mod 16 = 0 ->
+    sc_wf C old1 -> sc_wf C old2 -> Forall (hop_wf C) h1 -> Forall (hop_wf C) h2 ->
+    is_scoring last -> hop_wf C last ->
+    f_hrun C (h1 ++ [last]) old1 = Ok r1 -> f_hrun C (h2 ++ [last]) old2 = Ok r2 -> r1 = r2.
+Proof. intros C h1 h2 old1 old2 last r1 r2 HC HC16. apply scores_history_last_call_only_wf; auto. Qed.
+
+(* the logical content after a full scan of a PADDED state (new / sample, then configure) that ends any
+   history: never panics, max_index = L - M + 1, R = rows - wrap rows (none when L < M), is_empty iff
+   L < M, len() = L - M + 1, unstripe() = the defined scores of the logical sequence: neither the
+   earlier calls nor the padding show through *)
+Theorem C01_scores_history_content_padded :
+  forall (C : nat) (h : list hop) (old : sscores f32) (c : call) (s : list nat) (mid : sscores f32),
+    0 < C -> C mod 16 = 0 ->
+    sc_wf C old -> Forall (hop_wf C) h -> call_wf C c -> Padded C (c_K c - 1) s (c_seq c) ->
+    f_hrun C h old = Ok mid ->
+    let L := length s in let M := length (c_pssm c) in
+    exists r,
+      f_hstep C (HScoreInto c) mid = Ok r /\
+      sc_max r = (if L <? M then 0 else L + 1 - M) /\
+      length (sc_mat r) = (if L <? M then 0 else pad_R (c_seq c)) /\
+      sc_is_empty r = (L <? M) /\
+      sc_len C r = L + 1 - M /\
+      sc_unstripe C r = Ok (map (score_def F32.add F32.zero (c_K c - 1) (c_pssm c) s) (seq 0 (L + 1 - M))).
+Proof. intros C h old c s mid HC HC16. apply scores_history_content_padded; auto. Qed.
 
 (* ---------- statement pins ---------- *)
 
